@@ -2,6 +2,7 @@ import LiquidModel.Drv.Codec
 import LiquidModel.Drv.Render
 import LiquidModel.Drv.FilterOp
 import LiquidModel.Drv.C05
+import LiquidModel.Drv.C18
 namespace Liquid.Drv
 
 /-- op name ↦ handler; each `Drv/*.lean` contributes its ops here. -/
@@ -9,6 +10,7 @@ def dispatch (op : String) : Option (List String → String) :=
   match op with
   | "render" => some (renderOp baseFilters)
   | "c05" => some c05Op
+  | "stack" => some stackOp
   | _ => none
 
 end Liquid.Drv
